@@ -193,10 +193,11 @@ class Monitor:
         self.limits = {}        # id(hw_driver) -> Limits
         self.viol = []
         self.clauses = {"hw_limits": 0, "refusal": 0, "refusal_no_leak": 0, "sw_pulse_off": 0, "hold_limit": 0,
-                        "rule_limits": 0, "rule_refusal": 0, "dout_limits": 0}
+                        "rule_limits": 0, "rule_refusal": 0, "dout_limits": 0, "dout_sw_pulse_off": 0}
         self.obs = {"hw_pulse": 0, "hw_enable": 0, "hw_sw_pulse": 0, "hw_timed_enable": 0, "hw_disable": 0,
                     "hw_rule": 0, "api_calls": 0, "api_refused": 0, "api_must_refuse": 0, "rule_calls": 0,
-                    "rule_refused": 0, "sw_pulse_superseded": 0, "dout_cmds": 0}
+                    "rule_refused": 0, "sw_pulse_superseded": 0, "dout_cmds": 0,
+                    "dout_sw_pulse_superseded": 0}
         self.shape = set()
         self.loop = None
         self._patched = []
@@ -312,6 +313,28 @@ class Monitor:
                     mon.sw_ctx.pop()
             return wrapper
         self._patch(Driver, "_pulse_now", make_pulse_now)
+
+        # driver-type digital outputs: an enable issued from inside DigitalOutput.pulse is a software-timed pulse
+        from mpf.devices.digital_output import DigitalOutput
+
+        def make_dout_pulse(orig):
+            def wrapper(do, pulse_ms, *a, **k):
+                if getattr(do, "type", None) != "driver" or do.hw_driver is None:
+                    return orig(do, pulse_ms, *a, **k)
+                mon.sw_ctx.append((id(do.hw_driver), pulse_ms))
+                n0 = len(mon.events)
+                raised = None
+                try:
+                    try:
+                        return orig(do, pulse_ms, *a, **k)
+                    except Exception as e:   # noqa
+                        raised = e
+                        raise
+                finally:
+                    mon.sw_ctx.pop()
+                    mon._dout_request(do, pulse_ms, raised, n0)
+            return wrapper
+        self._patch(DigitalOutput, "pulse", make_dout_pulse)
 
         # harness workaround: after a crash-stop, a cancelled placeholder future re-subscribes for ever
         def mk_placeholder(orig):
@@ -531,6 +554,22 @@ class Monitor:
                                {"boundary": "rule installed on platform" if ev["kind"] == "rule" else
                                 "command reached platform driver", "fault": fault, "coil": lim.name, "command": self._ev_short(ev), "limits": lim.as_dict()})
 
+    def _dout_request(self, do, pulse_ms, raised, n0):
+        """Request boundary of a driver-type digital output: a negative duration must be refused."""
+        self.obs["dout_pulse_requests"] = self.obs.get("dout_pulse_requests", 0) + 1
+        v = num(pulse_ms)
+        self.shape.add("dout:%s:%s" % ("neg" if (v is not None and v < 0) else "x" if v is None else
+                                       "0" if v == 0 else "hw" if v <= 255 else "sw", "R" if raised else "A"))
+        if v is not None and v < 0:
+            self.clauses["dout_limits"] += 1
+            cmds = [e for e in self.events[n0:] if e["hw"] == id(do.hw_driver) and e["kind"] != "disable"]
+            if raised is None or cmds:
+                self.violation("dout_limits", "digital_output_pulse_unchecked",
+                               {"output": do.name, "fault": "negative_pulse_ms", "boundary":
+                                "request accepted without error" if raised is None else "refused but driver commanded",
+                                "pulse_ms": _short(pulse_ms),
+                                "driver_cmds": [self._ev_short(e) for e in cmds[:3]]})
+
     def _check_dout(self, ev, do):
         """Digital output on a driver: envelope = the DriverConfig it registered with the platform."""
         self.clauses["dout_limits"] += 1
@@ -550,6 +589,16 @@ class Monitor:
                 self.violation("dout_limits", "digital_output_pulse_unchecked",
                                {"output": do.name, "fault": fault, "command": self._ev_short(ev),
                                 "registered_max_pulse_ms": max_ms})
+        elif ev["kind"] == "sw_pulse":
+            d = ev["sw_ms"]
+            fault = None
+            if not is_number(d):
+                fault = "non_numeric_pulse_ms"
+            elif d < 0:
+                fault = "negative_pulse_ms"
+            if fault:
+                self.violation("dout_limits", "digital_output_pulse_unchecked",
+                               {"output": do.name, "fault": fault, "command": self._ev_short(ev)})
 
     # ------------------------------------------------------------------------------------------
     def pending_deadline(self):
@@ -568,10 +617,17 @@ class Monitor:
         open_deadlines = {}
         for hwid, evs in per.items():
             owner = self.owners.get(hwid)
-            if owner is None or owner[0] != "coil":
+            if owner is None:
                 continue
-            lim = self.limits[hwid]
+            is_dout = owner[0] == "dout"
+            if is_dout:
+                # driver-type digital output: software-timed pulses only (it may be enabled for ever by design)
+                lim = _DoutLimits(owner[1].name)
+            else:
+                lim = self.limits[hwid]
             dur = lim.max_hold_duration
+            sw_clause = "dout_sw_pulse_off" if is_dout else "sw_pulse_off"
+            sw_sig = "digital_output_sw_pulse_not_switched_off" if is_dout else "sw_timed_pulse_not_switched_off"
             sw = None          # (deadline, ev)
             hold_since = None  # (t, ev)
             seqs = list(evs)
@@ -581,9 +637,11 @@ class Monitor:
                 t = ev["t"]
                 if not collect_only:
                     if sw is not None and t > sw[0] + EPS:
-                        self.clauses["sw_pulse_off"] += 1
-                        self.violation("sw_pulse_off", "sw_timed_pulse_not_switched_off",
-                                       {"coil": lim.name, "switched_on": self._ev_short(sw[1]),
+                        self.clauses[sw_clause] += 1
+                        self.violation(sw_clause, sw_sig,
+                                       {"output" if is_dout else "coil": lim.name,
+                                        "commands_since": [self._ev_short(e) for e in evs
+                                                           if e["seq"] > sw[1]["seq"]][:4], "switched_on": self._ev_short(sw[1]),
                                         "deadline": round(sw[0], 6), "next_event_at": round(t, 6),
                                         "next_event": ev["kind"]})
                         sw = None
@@ -601,18 +659,18 @@ class Monitor:
                 k = ev["kind"]
                 if k == "disable":
                     if sw is not None and not collect_only:
-                        self.clauses["sw_pulse_off"] += 1
+                        self.clauses[sw_clause] += 1
                     if hold_since is not None and dur is not None and not collect_only:
                         self.clauses["hold_limit"] += 1
                     sw, hold_since = None, None
                 elif k == "sw_pulse":
                     if sw is not None and not collect_only:
-                        self.obs["sw_pulse_superseded"] += 1
+                        self.obs["dout_sw_pulse_superseded" if is_dout else "sw_pulse_superseded"] += 1
                     ms = ev["sw_ms"] if is_number(ev["sw_ms"]) else 0
                     sw = (t + max(0.0, ms) / 1000.0, ev)
                 elif k == "enable":
                     if sw is not None and not collect_only:
-                        self.obs["sw_pulse_superseded"] += 1
+                        self.obs["dout_sw_pulse_superseded" if is_dout else "sw_pulse_superseded"] += 1
                     sw = None
                     if hold_since is None:
                         hold_since = (t, ev)
@@ -624,6 +682,13 @@ class Monitor:
     def finish(self, t_end):
         self.flush()
         self._scan(t_end)
+
+
+class _DoutLimits:
+    max_hold_duration = None
+
+    def __init__(self, name):
+        self.name = name
 
 
 def _nan_sig(fault, hold_power):
